@@ -173,17 +173,22 @@ Definition enc_b128 (n : N) : bytes :=
 
 Definition max_int32 : N := 2147483647.
 
-Fixpoint dec_b128 (shifted : nat) (acc : N) (bs : bytes) : option (N * bytes) :=
+(* the reader, parametrised by the number of octets it accepts per value and
+   the largest value: encoding/asn1 takes 5 octets and values <= MaxInt32,
+   zcrypto's cryptobyte takes 4 octets *)
+Fixpoint dec_b128g (lim : nat) (maxv : N) (shifted : nat) (acc : N) (bs : bytes) : option (N * bytes) :=
   match bs with
   | [] => None                                               (* truncated *)
   | b :: r =>
-      if (shifted =? 5)%nat then None                        (* too large *)
+      if (shifted =? lim)%nat then None                      (* too large *)
       else if (shifted =? 0)%nat && (b =? 128) then None     (* not minimal *)
       else
         let acc' := acc * 128 + b mod 128 in
-        if b <? 128 then (if max_int32 <? acc' then None else Some (acc', r))
-        else dec_b128 (S shifted) acc' r
+        if b <? 128 then (if maxv <? acc' then None else Some (acc', r))
+        else dec_b128g lim maxv (S shifted) acc' r
   end.
+
+Definition dec_b128 := dec_b128g 5 max_int32.
 
 Lemma le_digits_length B : 2 <= B -> forall k fuel n,
   n < B ^ N.of_nat k -> (length (le_digits B fuel n) <= k)%nat.
@@ -203,20 +208,20 @@ Proof.
   cbn [rev le_val]. rewrite fold_left_app. cbn [fold_left]. rewrite IH. lia.
 Qed.
 
-Lemma dec_b128_tail : forall hs s acc d0 rest,
-  Forall (fun d => d < 128) hs -> d0 < 128 -> (1 <= s)%nat -> (s + length hs <= 4)%nat ->
-  dec_b128 s acc (map (fun d => 128 + d) hs ++ d0 :: rest) =
+Lemma dec_b128g_tail lim maxv : forall hs s acc d0 rest,
+  Forall (fun d => d < 128) hs -> d0 < 128 -> (1 <= s)%nat -> (s + length hs < lim)%nat ->
+  dec_b128g lim maxv s acc (map (fun d => 128 + d) hs ++ d0 :: rest) =
   let v := acc128 acc hs * 128 + d0 in
-  if max_int32 <? v then None else Some (v, rest).
+  if maxv <? v then None else Some (v, rest).
 Proof.
   induction hs as [|h hs IH]; intros s acc d0 rest Hh Hd Hs Hl.
-  - cbn [map app dec_b128 acc128 fold_left].
-    destruct (Nat.eqb_spec s 5) as [|_]; [simpl in Hl; lia|].
+  - cbn [map app dec_b128g acc128 fold_left].
+    destruct (Nat.eqb_spec s lim) as [|_]; [simpl in Hl; lia|].
     destruct (Nat.eqb_spec s 0) as [|_]; [lia|]. cbn [andb].
     rewrite N.mod_small by lia. destruct (N.ltb_spec d0 128); [reflexivity|lia].
   - apply Forall_cons_iff in Hh as [Hh1 Hh2]. cbn [length] in Hl.
-    cbn [map app dec_b128].
-    destruct (Nat.eqb_spec s 5) as [|_]; [lia|].
+    cbn [map app dec_b128g].
+    destruct (Nat.eqb_spec s lim) as [|_]; [lia|].
     destruct (Nat.eqb_spec s 0) as [|_]; [lia|]. cbn [andb].
     destruct (N.ltb_spec (128 + h) 128) as [|_]; [lia|].
     replace ((128 + h) mod 128) with h
@@ -225,16 +230,17 @@ Proof.
     reflexivity.
 Qed.
 
-Theorem dec_enc_b128 n rest : n <= max_int32 ->
-  dec_b128 0 0 (enc_b128 n ++ rest) = Some (n, rest).
+Theorem dec_enc_b128g lim maxv n rest : (1 <= lim)%nat -> n <= maxv -> n < 128 ^ N.of_nat lim ->
+  dec_b128g lim maxv 0 0 (enc_b128 n ++ rest) = Some (n, rest).
 Proof.
-  intros Hn. unfold enc_b128.
+  intros Hl1 Hn Hlim. unfold enc_b128.
   pose proof (le_val_digits 128 ltac:(lia) (nfuel n) n (nfuel_spec n)) as Hv.
   pose proof (le_digits_lt 128 ltac:(lia) (nfuel n) n) as Hlt.
-  assert (Hlen : (length (le_digits 128 (nfuel n) n) <= 5)%nat).
-  { apply le_digits_length; [lia|]. unfold max_int32 in Hn. simpl. lia. }
+  assert (Hlen : (length (le_digits 128 (nfuel n) n) <= lim)%nat) by (apply le_digits_length; [lia|exact Hlim]).
   destruct (N.eq_dec n 0) as [->|Hnz].
-  { simpl. reflexivity. }
+  { destruct lim as [|l]; [lia|]. cbn [le_digits nfuel N.log2 N.to_nat N.eqb app dec_b128g Nat.eqb andb].
+    change (0 =? 128) with false. change (0 * 128 + 0 mod 128) with 0. change (0 <? 128) with true. cbv iota.
+    destruct (N.ltb_spec maxv 0); [lia|reflexivity]. }
   pose proof (le_digits_last_nz 128 ltac:(lia) (nfuel n) n (nfuel_spec n) Hnz) as Hlast.
   destruct (le_digits 128 (nfuel n) n) as [|d0 hi] eqn:E.
   { simpl in Hv. lia. }
@@ -243,11 +249,12 @@ Proof.
   destruct (rev hi) as [|h hs] eqn:Er.
   - (* single digit *)
     assert (hi = []) by (destruct hi; [reflexivity|]; cbn [rev] in Er; destruct (rev hi); discriminate).
-    subst hi. cbn [map app dec_b128]. cbn [Nat.eqb andb].
+    subst hi. cbn [map app dec_b128g].
+    destruct (Nat.eqb_spec 0 lim) as [|_]; [lia|]. cbn [Nat.eqb andb].
     destruct (N.eqb_spec d0 128) as [|_]; [lia|].
     rewrite N.mod_small by lia. destruct (N.ltb_spec d0 128) as [_|]; [|lia].
     simpl in Hv. replace (0 * 128 + d0) with n by lia.
-    destruct (N.ltb_spec max_int32 n); [lia|reflexivity].
+    destruct (N.ltb_spec maxv n); [lia|reflexivity].
   - assert (Hrl : length (rev hi) = length hi) by apply rev_length.
     rewrite Er in Hrl. cbn [length] in Hrl.
     assert (Hrf : Forall (fun d => d < 128) (h :: hs)) by (rewrite <- Er; now apply Forall_rev).
@@ -260,17 +267,24 @@ Proof.
         change (last (d0 :: n0 :: l) 0) with (last (n0 :: l) 0). rewrite <- E2.
         apply last_last. }
       rewrite Hl in Hlast. exact Hlast. }
-    cbn [map app dec_b128]. cbn [Nat.eqb andb].
+    cbn [map app dec_b128g].
+    destruct (Nat.eqb_spec 0 lim) as [|_]; [lia|]. cbn [Nat.eqb andb].
     destruct (N.eqb_spec (128 + h) 128) as [|_]; [lia|].
     destruct (N.ltb_spec (128 + h) 128) as [|_]; [lia|].
     replace ((128 + h) mod 128) with h by (apply N.mod_unique with (q := 1); lia).
     rewrite <- app_assoc. change ([d0] ++ rest) with (d0 :: rest).
-    rewrite (dec_b128_tail hs 1 (0 * 128 + h) d0 rest Hhs Hd0) by lia.
+    rewrite (dec_b128g_tail lim maxv hs 1 (0 * 128 + h) d0 rest Hhs Hd0) by lia.
     cbv zeta.
     assert (Hacc : acc128 (0 * 128 + h) hs = le_val 128 hi).
     { rewrite <- acc128_rev, Er. unfold acc128. cbn [fold_left]. reflexivity. }
     rewrite Hacc. replace (le_val 128 hi * 128 + d0) with n by lia.
-    destruct (N.ltb_spec max_int32 n); [lia|reflexivity].
+    destruct (N.ltb_spec maxv n); [lia|reflexivity].
+Qed.
+
+Theorem dec_enc_b128 n rest : n <= max_int32 ->
+  dec_b128 0 0 (enc_b128 n ++ rest) = Some (n, rest).
+Proof.
+  intros H. apply dec_enc_b128g; [lia|exact H|]. unfold max_int32 in H. simpl. lia.
 Qed.
 
 Lemma enc_b128_nonempty n : enc_b128 n <> [].
@@ -291,17 +305,17 @@ Definition enc_oid (o : oid) : option bytes :=
   | _ => None
   end.
 
-Fixpoint dec_b128_list (fuel : nat) (bs : bytes) : option (list N) :=
+Fixpoint dec_b128g_list (lim : nat) (maxv : N) (fuel : nat) (bs : bytes) : option (list N) :=
   match bs with
   | [] => Some []
   | _ =>
       match fuel with
       | O => None
       | S f =>
-          match dec_b128 0 0 bs with
+          match dec_b128g lim maxv 0 0 bs with
           | None => None
           | Some (v, r) =>
-              match dec_b128_list f r with
+              match dec_b128g_list lim maxv f r with
               | None => None
               | Some l => Some (v :: l)
               end
@@ -309,14 +323,14 @@ Fixpoint dec_b128_list (fuel : nat) (bs : bytes) : option (list N) :=
       end
   end.
 
-Definition dec_oid (bs : bytes) : option oid :=
+Definition dec_oidg (lim : nat) (maxv : N) (bs : bytes) : option oid :=
   match bs with
   | [] => None
   | _ =>
-      match dec_b128 0 0 bs with
+      match dec_b128g lim maxv 0 0 bs with
       | None => None
       | Some (v, r) =>
-          match dec_b128_list (length r) r with
+          match dec_b128g_list lim maxv (length r) r with
           | None => None
           | Some tl =>
               Some (if v <? 80 then (v / 40) :: (v mod 40) :: tl else 2 :: (v - 80) :: tl)
@@ -324,20 +338,25 @@ Definition dec_oid (bs : bytes) : option oid :=
       end
   end.
 
-Definition wf_oid (o : oid) : bool :=
+(* encoding/asn1's reader *)
+Definition dec_oid := dec_oidg 5 max_int32.
+
+(* valid for the writer, every value at most [bnd] *)
+Definition wf_oidb (bnd : N) (o : oid) : bool :=
   match o with
   | a :: b :: r =>
       negb ((2 <? a) || ((a <? 2) && (40 <=? b)))
-      && (a * 40 + b <=? max_int32) && forallb (fun x => x <=? max_int32) r
+      && (a * 40 + b <=? bnd) && forallb (fun x => x <=? bnd) r
   | _ => false
   end.
+Definition wf_oid := wf_oidb max_int32.
 
-Lemma dec_b128_list_enc : forall r fuel,
-  forallb (fun x => x <=? max_int32) r = true ->
+Lemma dec_b128g_list_enc lim maxv bnd : (1 <= lim)%nat -> bnd <= maxv -> bnd < 128 ^ N.of_nat lim -> forall r fuel,
+  forallb (fun x => x <=? bnd) r = true ->
   (length (flat_map enc_b128 r) <= fuel)%nat ->
-  dec_b128_list fuel (flat_map enc_b128 r) = Some r.
+  dec_b128g_list lim maxv fuel (flat_map enc_b128 r) = Some r.
 Proof.
-  induction r as [|x r IH]; intros fuel Hr Hf.
+  intros Hl1 Hb1 Hb2. induction r as [|x r IH]; intros fuel Hr Hf.
   - destruct fuel; reflexivity.
   - cbn [forallb] in Hr. apply andb_prop in Hr as [Hx Hr]. apply N.leb_le in Hx.
     cbn [flat_map] in *. rewrite app_length in Hf.
@@ -346,23 +365,25 @@ Proof.
     destruct fuel as [|f]; [lia|].
     destruct (enc_b128 x ++ flat_map enc_b128 r) eqn:E.
     { apply app_eq_nil in E as [E _]. contradiction. }
-    rewrite <- E. cbn [dec_b128_list].
+    rewrite <- E. cbn [dec_b128g_list].
     destruct (enc_b128 x ++ flat_map enc_b128 r) eqn:E2; [discriminate|]. rewrite <- E2.
-    rewrite dec_enc_b128 by exact Hx. rewrite IH by (auto; lia). reflexivity.
+    rewrite dec_enc_b128g by lia. rewrite IH by (auto; lia). reflexivity.
 Qed.
 
-Theorem dec_enc_oid o bs : wf_oid o = true -> enc_oid o = Some bs -> dec_oid bs = Some o.
+Theorem dec_enc_oidg lim maxv bnd o bs : (1 <= lim)%nat -> bnd <= maxv -> bnd < 128 ^ N.of_nat lim ->
+  wf_oidb bnd o = true -> enc_oid o = Some bs -> dec_oidg lim maxv bs = Some o.
 Proof.
+  intros Hl1 Hb1 Hb2.
   destruct o as [|a [|b r]]; try discriminate.
-  cbn [wf_oid enc_oid]. intros Hwf.
+  cbn [wf_oidb enc_oid]. intros Hwf.
   apply andb_prop in Hwf as [Hwf Hr]. apply andb_prop in Hwf as [Hab Hv].
   apply negb_true_iff in Hab. rewrite Hab. intros E. injection E as <-.
   apply N.leb_le in Hv.
-  unfold dec_oid.
+  unfold dec_oidg.
   destruct (enc_b128 (a * 40 + b) ++ flat_map enc_b128 r) eqn:E.
   { apply app_eq_nil in E as [E _]. now apply enc_b128_nonempty in E. }
-  rewrite <- E. rewrite dec_enc_b128 by exact Hv.
-  rewrite dec_b128_list_enc by (auto; lia).
+  rewrite <- E. rewrite dec_enc_b128g by lia.
+  rewrite (dec_b128g_list_enc lim maxv bnd Hl1 Hb1 Hb2) by (auto; lia).
   apply orb_false_iff in Hab as [Ha Hb]. apply N.ltb_ge in Ha.
   destruct (N.ltb_spec (a * 40 + b) 80) as [Hlt|Hge].
   - assert (Ha2 : a < 2) by lia. destruct (N.ltb_spec a 2) as [_|]; [|lia].
@@ -373,6 +394,30 @@ Proof.
   - destruct (N.ltb_spec a 2) as [Hlt2|Hge2].
     + cbn [andb] in Hb. apply N.leb_gt in Hb. lia.
     + assert (a = 2) by lia. subst a. f_equal. f_equal. f_equal. lia.
+Qed.
+
+Theorem dec_enc_oid o bs : wf_oid o = true -> enc_oid o = Some bs -> dec_oid bs = Some o.
+Proof.
+  apply dec_enc_oidg; [lia|lia|]. unfold max_int32. simpl. lia.
+Qed.
+
+(* zcrypto's cryptobyte reader (ReadASN1ObjectIdentifier): four octets per value *)
+Definition cb_max : N := 268435455.
+Definition dec_oid_cb := dec_oidg 4 cb_max.
+Definition wf_oid_cb := wf_oidb cb_max.
+
+Theorem dec_enc_oid_cb o bs : wf_oid_cb o = true -> enc_oid o = Some bs -> dec_oid_cb bs = Some o.
+Proof.
+  apply dec_enc_oidg; [lia|lia|]. unfold cb_max. simpl. lia.
+Qed.
+
+Lemma wf_oid_cb_wf o : wf_oid_cb o = true -> wf_oid o = true.
+Proof.
+  unfold wf_oid_cb, wf_oid, wf_oidb. destruct o as [|a [|b r]]; try discriminate.
+  intros H. apply andb_prop in H as [H Hr]. apply andb_prop in H as [H1 H2].
+  rewrite H1. apply N.leb_le in H2. unfold cb_max, max_int32 in *.
+  destruct (N.leb_spec (a * 40 + b) 2147483647); [|lia]. cbn [andb].
+  rewrite forallb_forall in *. intros x Hx. specialize (Hr x Hx). apply N.leb_le in Hr. apply N.leb_le. lia.
 Qed.
 
 Definition oid_eqb (a b : oid) : bool := list_eqb N.eqb a b.
